@@ -43,7 +43,9 @@ impl Encoder for RawEnc {
     type Error = Status;
     fn encode(&mut self, item: RawMsg, dst: &mut EncodeBuf<'_>) -> Result<(), Status> {
         dst.reserve(item.len());
-        dst.put_slice(&item);
+        // hand the bytes over as a non-contiguous Buf (a codec may serialise into a rope): every segment counts
+        let k = item.len() / 3;
+        dst.put(bytes::Buf::chain(&item[..k], &item[k..]));
         Ok(())
     }
     fn buffer_settings(&self) -> BufferSettings {
